@@ -803,7 +803,9 @@ class Gen:
             elif k == "bitarray":
                 bextra = sorted(set([8 * x for x in L.special_sizes] + [8 * x + d for x in L.special_sizes for d in (-1, 1)]
                                     + [rnd.randrange(0, 321) for _ in range(5)]) - set(BITCOUNTS))
-                for n in BITCOUNTS + bextra + ([4096, 65535] if self.thorough else [4096]):
+                # the top of the 16-bit count range in every tier: octet arithmetic done in 16 bits wraps only there
+                for n in BITCOUNTS + bextra + ([4096, 32767, 32768, 65527, 65528, 65529, 65534, 65535] if self.thorough
+                                               else [4096, 65528, 65529, 65535]):
                     for padnz in (False, True):
                         if padnz and n % 8 == 0:
                             continue
